@@ -1,0 +1,11 @@
+//go:build verif
+
+package internal
+
+import "github.com/godaddy/asherah/go/securememory"
+
+// VerifSecret exposes the key's underlying secret to verification hooks.
+// It is only available when built with the verif build tag.
+func (k *CryptoKey) VerifSecret() securememory.Secret {
+	return k.secret
+}
